@@ -1,7 +1,7 @@
 (* HyperInstance.v — the CustomHyper subclasses and `where` predicates the check uses satisfy what the theorems
    assume of user code; examples showing the hypotheses of the theorems are satisfiable on a non-trivial template. *)
 From PG Require Import Common.Tactics Common.Tr Model.Geno Proofs.GenoBasics Model.Hyper Model.HyperSpec Model.HyperRun
-  Proofs.HyperBasics Proofs.HyperDecode Proofs.HyperEncode.
+  Proofs.HyperBasics Proofs.HyperDecode Proofs.HyperEncode Proofs.HyperIter.
 Local Open Scope Z_scope.
 
 Lemma std_concrete : custom_concrete std_cdec.
@@ -47,6 +47,15 @@ Proof.
       split; [apply andb_true_iff; split; auto; lia|]. rewrite Z2N.id by lia. rewrite Z.eqb_refl. auto. }
     destruct G as [G1 G2]. rewrite G1. eexists; split; [reflexivity|]. exact G2.
   - destruct v; try discriminate. destruct l; inv H. eexists; split; [reflexivity|]. simpl. apply str_eqb_refl.
+Qed.
+
+Lemma std_cdec_inj : forall ck s1 s2 v1 v2, std_cdec ck s1 = Ok v1 -> std_cdec ck s2 = Ok v2 -> veq v1 v2 = true -> s1 = s2.
+Proof.
+  intros [|[|ck]] s1 s2 v1 v2 H1 H2 Hq; simpl in H1, H2; try discriminate.
+  - destruct (forallb _ s1); inv H1. destruct (forallb _ s2); inv H2. simpl in Hq.
+    revert s2 Hq. induction s1 as [|a s1 IH]; intros [|b s2] Hq; simpl in Hq; try discriminate; auto.
+    apply andb_true_iff in Hq as [Hq1 Hq2]. apply Z.eqb_eq in Hq1. f_equal; [lia | auto].
+  - inv H1. inv H2. simpl in Hq. apply str_eqb_eq; auto.
 Qed.
 
 (* every predicate of the pool looks at the placeholder itself only *)
@@ -109,4 +118,23 @@ Proof.
            | H : sdecode _ _ (TLeaf _) _ = Ok _ |- _ => apply sdecode_leaf in H; subst
            | H : sdecode _ _ (TDict _) _ = Ok _ |- _ => apply sdecode_dict in H; destruct H as [? ->]
            end; reflexivity.
+Qed.
+
+Example ex_hwf : hwf ex_t = true.
+Proof. reflexivity. Qed.
+Example ex_finite : finite (dna_spec ex_w ex_t) = true.
+Proof. reflexivity. Qed.
+Example ex_size : space_size (dna_spec ex_w ex_t) = Some 9%N.
+Proof. reflexivity. Qed.
+(* every hypothesis of the round-trip and of the iteration theorem holds on the example *)
+Example ex_roundtrip_applies : sencode std_cenc ex_w hq_none ex_t ex_v = Ok ex_d.
+Proof.
+  exact (encode_decode std_cdec std_cenc ex_w hq_none eq_refl std_cenc_err std_cenc_sound std_cenc_dec
+           ex_t ex_d ex_v ex_wf ex_distinguishable ex_valid ex_decode).
+Qed.
+Example ex_iter_applies : length (iter (dna_spec ex_w ex_t) 9) = 9%nat /\ NoDup (iter (dna_spec ex_w ex_t) 9).
+Proof.
+  destruct (iter_count std_cdec ex_w ex_t ex_hwf ex_wf ex_finite (weval_shallow WAll) std_concrete std_cdec_inj
+              ex_distinguishable 9 (Nat.le_refl 9)) as (E & ND & _).
+  split; [reflexivity | exact ND].
 Qed.
